@@ -248,6 +248,36 @@ theorem rxWire_sound (var : Variant) (hv : var.d8 = false) (sw : Sw) (f : Frame)
       obtain ⟨rfl, _, rfl⟩ := h
       simp [ha]
 
+/-- the same for a packet object handed to `rx_packet` without wire bytes: the byte counter moves by the length of its
+serialisation -/
+theorem rxObj_sound (var : Variant) (hv : var.d8 = false) (sw : Sw) (f : Frame) (inPort : Nat) (sw' : Sw)
+    (outs : List Out) (h : rxObj var sw f inPort = .ok (sw', outs)) :
+    (accepts sw f inPort = false → sw' = sw ∧ outs = []) ∧
+    (accepts sw f inPort = true → ∃ b, packFrame f = .ok b ∧ Sound (bumpRx sw inPort b.length) sw' outs) := by
+  unfold rxObj at h
+  obtain ⟨f', h⟩ := dropFrame_ok h
+  unfold rxThen at h
+  unfold accepts
+  cases hf : findPort sw.ports inPort with
+  | none =>
+    simp only [hf, Except.ok.injEq, Prod.mk.injEq] at h
+    obtain ⟨rfl, _, rfl⟩ := h
+    simp
+  | some p =>
+    simp only [hf] at h
+    by_cases ha : rxAccepts sw p f = true
+    · simp only [ha, Bool.not_true, Bool.false_eq_true, if_false] at h
+      refine ⟨by simp [ha], fun _ => ?_⟩
+      cases hp : packFrame f with
+      | error e => simp [hp] at h
+      | ok b =>
+        simp only [hp] at h
+        exact ⟨b, rfl, lookupPacket_sound (run var depth)
+          (fun sw acts f inPort => run_sound var hv depth sw acts f inPort) _ _ _ _ _ _ _ h⟩
+    · simp only [ha, Bool.not_false, if_true, Except.ok.injEq, Prod.mk.injEq] at h
+      obtain ⟨rfl, _, rfl⟩ := h
+      simp [ha]
+
 /-- nothing is accepted from a receive-disabled port (802.1D frames excepted), from a NO_RECV_STP port nothing that is
 802.1D, from a port that does not exist nothing at all -/
 theorem accepts_guards (sw : Sw) (f : Frame) (inPort : Nat) :
@@ -268,6 +298,10 @@ def countStep (sw : Sw) (op : Op) (outs : List Out) : List Stat :=
   match op with
   | .rx f inPort wire =>
     if accepts sw f inPort then tally (bumpRx sw inPort wire.length).stats outs else tally sw.stats outs
+  | .rxObj f inPort =>
+    match accepts sw f inPort, packFrame f with
+    | true, .ok b => tally (bumpRx sw inPort b.length).stats outs
+    | _, _ => tally sw.stats outs
   | _ => tally sw.stats outs
 
 theorem portModBits_noFrames (config mask : Nat) : ∀ (l : List Nat) (p : Port), noFrames (portModBits config mask l p).2 := by
@@ -326,6 +360,14 @@ theorem step_counters (var : Variant) (hv : var.d8 = false) (sw : Sw) (op : Op) 
     obtain ⟨h1, h2⟩ := rxWire_sound var hv sw f inPort wire sw' outs h
     cases ha : accepts sw f inPort with
     | true => simp [countStep, ha, (h2 ha).state]
+    | false => obtain ⟨rfl, rfl⟩ := h1 ha; simp [countStep, ha]
+  | rxObj f inPort =>
+    simp only [step] at h
+    obtain ⟨h1, h2⟩ := rxObj_sound var hv sw f inPort sw' outs h
+    cases ha : accepts sw f inPort with
+    | true =>
+      obtain ⟨b, hb, hs⟩ := h2 ha
+      simp [countStep, ha, hb, hs.state]
     | false => obtain ⟨rfl, rfl⟩ := h1 ha; simp [countStep, ha]
 
 /-- the statistics a history must end with, replayed from its observable log -/
